@@ -5,6 +5,8 @@ ENGINES = [
 NOTES = 'All checks are runtime monitors over executions of the real headers; verdicts are "held on what was observed". See DESIGN.md.'
 NOT_YET = {}
 CHECK_TEXT = {
+    'C07': {'technique': 'runtime monitoring: brute-force overlap oracle over the reference multiset for every query of bounded-exhaustive and random insert/remove histories, under ASan+UBSan'},
+    'C08': {'technique': 'runtime monitoring: reference-multiset monitor on top()/empty()/pop()/remove() after every operation + verified drain, bounded-exhaustive and random histories, under ASan+UBSan'},
     'C06': {'technique': 'runtime monitoring: structural-invariant + reference-order monitor through the public navigation API after every insert/remove of bounded-exhaustive and random histories, under ASan+UBSan'},
     'C14': {'technique': 'runtime monitoring: differential monitor against std::unordered_map after every operation of seeded histories, 6 hash functors, under ASan+UBSan'},
     'C17': {'technique': 'runtime monitoring: (state,value) reference-model monitor after every operation of bounded-exhaustive and random holder operation sequences, under ASan+UBSan'},
